@@ -873,4 +873,167 @@ theorem remove_tie (L : Lay) (hL : L.WF) (mem : Mem) (h : Heap) (hR : Rep L mem 
         · rw [u3, if_pos hnz]; rfl
         · rw [u4, if_pos hnz]; exact r4
 
+/-! ### `list_insert_sorted`: the comparator is a pure function (`nodecmp_fn`), the scan is a recursive definition -/
+
+theorem sorted_stop (node : BitVec 64) (f : BitVec 64 → BitVec 64 → BitVec 32) (iter : BitVec 64) (fuel : Nat) (mem : Mem)
+    (curr : BitVec 64) (hc : BitVec.sle 0#32 (f node curr) = false) :
+    list_insert_sorted.loop1 node f iter (fuel + 1) mem curr = ⟨mem, curr, false⟩ := by
+  simp [list_insert_sorted.loop1, hc]
+
+theorem sorted_next (node : BitVec 64) (f : BitVec 64 → BitVec 64 → BitVec 32) (iter : BitVec 64) (fuel : Nat) (mem : Mem)
+    (curr : BitVec 64) (hc : BitVec.sle 0#32 (f node curr) = true) :
+    list_insert_sorted.loop1 node f iter (fuel + 1) mem curr =
+      list_insert_sorted.loop1 node f iter fuel (list_iterator_next iter mem).mem (list_iterator_next iter mem).ret := by
+  simp [list_insert_sorted.loop1, list_iterator_next, hc]
+
+/-- the comparator the C code calls agrees in sign with the model's -/
+def CmpAgrees (L : Lay) (f : BitVec 64 → BitVec 64 → BitVec 32) (cmp : Node → Node → Int) : Prop :=
+  ∀ a b, L.okN a → L.okN b → (BitVec.sle 0#32 (f (L.A (.next a)) (L.A (.next b))) = true ↔ cmp a b ≥ 0)
+
+/-- the scan of `list_insert_sorted`, any number of iterations -/
+theorem sorted_loop_tie (L : Lay) (hL : L.WF) (h : Heap) (hC : Closed L h) (ia : BitVec 64) (hF : Foreign L ia)
+    (n : Node) (hn : L.okN n) (f : BitVec 64 → BitVec 64 → BitVec 32) (cmp : Node → Node → Int) (hcmp : CmpAgrees L f cmp) :
+    ∀ (fuel : Nat) (mem : Mem) (it : Iter) (cur : Option Node), Rep L mem h → IterAt L mem ia it → okLink L it.prevnext →
+      load h it.prevnext = cur → ∀ it', sortedLoop h cmp n fuel it cur = .ok it' →
+      (list_insert_sorted.loop1 (L.A (.next n)) f ia fuel mem (encN L cur)).exh = false ∧
+      Rep L (list_insert_sorted.loop1 (L.A (.next n)) f ia fuel mem (encN L cur)).mem h ∧
+      IterAt L (list_insert_sorted.loop1 (L.A (.next n)) f ia fuel mem (encN L cur)).mem ia it' ∧
+      okLink L it'.prevnext ∧ it'.list = it.list ∧ ∃ c, load h it'.prevnext = some c := by
+  intro fuel
+  induction fuel with
+  | zero => intro mem it cur _ _ _ _ it' e; simp [sortedLoop] at e
+  | succ fuel ih =>
+    intro mem it cur hR hI hk hld it' e
+    cases cur with
+    | none => simp [sortedLoop] at e
+    | some c =>
+      have hc : L.okN c := load_ok L h hC _ hk c hld
+      simp only [sortedLoop] at e
+      by_cases hge : cmp n c ≥ 0
+      · rw [if_pos hge] at e
+        have hs : BitVec.sle 0#32 (f (L.A (.next n)) (L.A (.next c))) = true := (hcmp n c hn hc).2 hge
+        obtain ⟨_, _, t3, t4, t5⟩ := iterator_next_tie L hL mem h hR hC ia hF it hI hk
+        have hin : iteratorNext h it = ({ it with prevnext := .nextOf c }, h.next c) := by unfold iteratorNext; rw [hld]
+        simp only [encN]
+        rw [sorted_next _ _ _ _ _ _ hs, t3]
+        rw [hin] at t5 e
+        rw [hin]
+        exact ih _ _ _ t4 t5 hc rfl it' e
+      · rw [if_neg hge] at e
+        simp only [Except.ok.injEq] at e
+        subst e
+        have hs : BitVec.sle 0#32 (f (L.A (.next n)) (L.A (.next c))) = false := by
+          cases hb : BitVec.sle 0#32 (f (L.A (.next n)) (L.A (.next c))) with
+          | false => rfl
+          | true => exact absurd ((hcmp n c hn hc).1 hb) hge
+        simp only [encN, sorted_stop _ _ _ _ _ _ hs]
+        exact ⟨trivial, hR, hI, hk, trivial, c, hld⟩
+
+theorem sorted_unfold_empty (fuel : Nat) (f : BitVec 64 → BitVec 64 → BitVec 32) (list node fp ia : BitVec 64) (mem : Mem)
+    (h0 : Mem.load64 mem list = 0#64) :
+    (list_insert_sorted fuel f list node fp ia mem).ub = false ∧ (list_insert_sorted fuel f list node fp ia mem).exh = false ∧
+    (list_insert_sorted fuel f list node fp ia mem).mem = (list_insert list node mem).mem := by
+  simp [list_insert_sorted, list_insert, h0]
+
+theorem sorted_unfold_tail (fuel : Nat) (f : BitVec 64 → BitVec 64 → BitVec 32) (list node fp ia : BitVec 64) (mem : Mem)
+    (h0 : Mem.load64 mem list ≠ 0#64) (hc : BitVec.sle 0#32 (f node (Mem.load64 mem (list + 8#64))) = true) :
+    (list_insert_sorted fuel f list node fp ia mem).ub = false ∧ (list_insert_sorted fuel f list node fp ia mem).exh = false ∧
+    (list_insert_sorted fuel f list node fp ia mem).mem = (list_insert list node mem).mem := by
+  simp [list_insert_sorted, list_insert, h0, hc]
+
+theorem sorted_unfold_scan (fuel : Nat) (f : BitVec 64 → BitVec 64 → BitVec 32) (list node fp ia : BitVec 64) (mem : Mem)
+    (h0 : Mem.load64 mem list ≠ 0#64) (hc : BitVec.sle 0#32 (f node (Mem.load64 mem (list + 8#64))) = false) :
+    (list_insert_sorted fuel f list node fp ia mem).ub = false ∧
+    (list_insert_sorted fuel f list node fp ia mem).exh =
+      (list_insert_sorted.loop1 node f ia fuel (list_iterate list ia mem).mem (list_iterate list ia mem).ret).exh ∧
+    (list_insert_sorted fuel f list node fp ia mem).mem =
+      (list_iterator_insert ia node
+        (list_insert_sorted.loop1 node f ia fuel (list_iterate list ia mem).mem (list_iterate list ia mem).ret).mem).mem := by
+  simp [list_insert_sorted, list_iterate, list_iterator_insert, h0, hc]
+
+/-- **tie T, `list_insert_sorted`** (any list length; pure comparator agreeing in sign with the model's): the two fast paths are
+    `list_insert`, the scan leaves the model's iterator and `list_iterator_insert` links the node in -/
+theorem sorted_tie (L : Lay) (hL : L.WF) (mem : Mem) (h : Heap) (hR : Rep L mem h) (hC : Closed L h) (l : Lid) (hl : L.okL l)
+    (n : Node) (hn : L.okN n) (f : BitVec 64 → BitVec 64 → BitVec 32) (cmp : Node → Node → Int) (hcmp : CmpAgrees L f cmp)
+    (fp ia : BitVec 64) (hF : Foreign L ia) (fuel : Nat) (h' : Heap) (hok : insertSorted fuel h l n cmp = .ok h') :
+    (list_insert_sorted fuel f (L.A (.head l)) (L.A (.next n)) fp ia mem).ub = false ∧
+    (list_insert_sorted fuel f (L.A (.head l)) (L.A (.next n)) fp ia mem).exh = false ∧
+    Rep L (list_insert_sorted fuel f (L.A (.head l)) (L.A (.next n)) fp ia mem).mem h' ∧ Closed L h' := by
+  have hHead := hR (.head l) hl
+  have hTail := hR (.tail l) hl
+  rw [← A_tail L hL l hl] at hTail
+  simp only [val] at hHead hTail
+  have hnone : h.next n = none := by
+    cases e : h.next n with
+    | none => rfl
+    | some m =>
+      unfold insertSorted at hok
+      rw [if_pos (by rw [e]; simp)] at hok
+      cases hok
+  unfold insertSorted at hok
+  rw [if_neg (by rw [hnone]; simp)] at hok
+  cases hh : h.head l with
+  | none =>
+    rw [hh] at hok
+    have hz : W mem (L.A (.head l)) = 0#64 := by rw [hHead, hh]; rfl
+    obtain ⟨u1, u2, u3⟩ := sorted_unfold_empty fuel f (L.A (.head l)) (L.A (.next n)) fp ia mem hz
+    have hins : Librfn.Model.ListHeap.insert h l n = .ok h' := by
+      unfold Librfn.Model.ListHeap.insert
+      rw [if_neg (by rw [hnone]; simp), hh]; exact hok
+    obtain ⟨_, _, i3, i4⟩ := insert_tie L hL mem h hR hC l n hl hn h' hins
+    exact ⟨u1, u2, by rw [u3]; exact i3, i4⟩
+  | some x =>
+    rw [hh] at hok
+    simp only at hok
+    have hx : L.okN x := hC.head l x hl hh
+    have hnz : W mem (L.A (.head l)) ≠ 0#64 := by rw [hHead, hh]; exact A_ne0 L hL (.next x) hx
+    cases ht : h.tail l with
+    | null => rw [ht] at hok; cases hok
+    | listAsNode l' => rw [ht] at hok; cases hok
+    | node t =>
+      rw [ht] at hok
+      simp only at hok
+      have htk : L.okN t := by have := hC.tail l hl; rw [ht] at this; exact this
+      have htl : W mem (L.A (.head l) + 8#64) = L.A (.next t) := by rw [hTail, ht]; rfl
+      by_cases hge : cmp n t ≥ 0
+      · rw [if_pos hge] at hok
+        have hs : BitVec.sle 0#32 (f (L.A (.next n)) (W mem (L.A (.head l) + 8#64))) = true := by
+          rw [htl]; exact (hcmp n t hn htk).2 hge
+        obtain ⟨u1, u2, u3⟩ := sorted_unfold_tail fuel f (L.A (.head l)) (L.A (.next n)) fp ia mem hnz hs
+        have hins : Librfn.Model.ListHeap.insert h l n = .ok h' := by
+          unfold Librfn.Model.ListHeap.insert
+          rw [if_neg (by rw [hnone]; simp), hh]; simp only; rw [ht]; exact hok
+        obtain ⟨_, _, i3, i4⟩ := insert_tie L hL mem h hR hC l n hl hn h' hins
+        exact ⟨u1, u2, by rw [u3]; exact i3, i4⟩
+      · rw [if_neg hge] at hok
+        have hs : BitVec.sle 0#32 (f (L.A (.next n)) (W mem (L.A (.head l) + 8#64))) = false := by
+          rw [htl]
+          cases hb : BitVec.sle 0#32 (f (L.A (.next n)) (L.A (.next t))) with
+          | false => rfl
+          | true => exact absurd ((hcmp n t hn htk).1 hb) hge
+        obtain ⟨u1, u2, u3⟩ := sorted_unfold_scan fuel f (L.A (.head l)) (L.A (.next n)) fp ia mem hnz hs
+        cases hsl : sortedLoop h cmp n fuel (iterate h l).1 (iterate h l).2 with
+        | error e => rw [hsl] at hok; cases hok
+        | ok it' =>
+          rw [hsl] at hok
+          simp only [Except.ok.injEq] at hok
+          subst hok
+          obtain ⟨_, _, i3, i4, i5⟩ := iterate_tie L mem h hR l hl ia hF
+          obtain ⟨k1, k2, k3, k4, k5, c, k6⟩ := sorted_loop_tie L hL h hC ia hF n hn f cmp hcmp fuel _ (iterate h l).1 (iterate h l).2
+            i4 i5 (show L.okL l from hl) rfl it' hsl
+          rw [← i3] at k1 k2 k3
+          have hself : cellOf it'.prevnext ≠ .next n := by
+            intro e
+            cases hk : it'.prevnext with
+            | headOf l' => rw [hk] at e; cases e
+            | nextOf m =>
+              rw [hk] at e k6
+              simp only [cellOf, Cell.next.injEq] at e
+              subst e
+              simp only [load] at k6
+              rw [hnone] at k6; cases k6
+          have hli : L.okL it'.list := by rw [k5]; exact hl
+          obtain ⟨_, _, r3, r4, _⟩ := iterator_insert_tie L hL _ h k2 hC ia hF it' k3 k4 hli n hn hnone hself
+          exact ⟨u1, by rw [u2]; exact k1, by rw [u3]; exact r3, r4⟩
+
 end Librfn.C09.Tie
